@@ -19,6 +19,7 @@ import (
 	"strconv"
 	"sync/atomic"
 	"testing"
+	"time"
 
 	"github.com/prometheus/prometheus/internal/verif/vx"
 	"github.com/prometheus/prometheus/model/labels"
@@ -671,6 +672,7 @@ func c29Classify(e *c29Expr, exp *c29Expect, got *ag_Outcome, agg, lhs, rhs []ag
 func TestVerifC29(t *testing.T) {
 	r := vx.Start(t, "C29", "exploration")
 	defer r.Finish()
+	ag_StartWatchdog(r, 90*time.Second)
 	ctx := &c29Ctx{r: r}
 	ctx.engines[0] = ag_NewEngine(false, 50000000)
 	ctx.engines[1] = ag_NewEngine(true, 50000000)
